@@ -45,6 +45,9 @@ checks = {
  "C17": ("exploration", "seeded path-MTU pairs on real endpoints (monitor recomputes Finished over unfragmented messages) and Byzantine fragment sets from a scripted peer, plus model comparison of the reassembly buffer",
    "pmtu mode: independent MTUs 100..2000 on both sides, completion/agreement/echo and monitor-derived Finished independent of the MTUs. frag mode: a scripted peer cuts one message into random partitions in arbitrary order with overlaps and duplicates (must complete), with a gap (must not), with fragments beyond the announced length and with conflicting lengths; pending fragment state bounded. Late duplicate fragments are a KNOWN-FINDING.",
    "Trusted: MTU below 100 need not work; rejecting = failing the handshake is acceptable for out-of-range/conflicting fragments.", "5/C17"),
+ "C11": ("exploration", "seeded operation sequences against a reference LRU (with aliasing and a master-secret integrity probe), concurrent histories under the vs kernel checked with porcupine (race build), and connection histories through tiny caches",
+   "seq: store/delete/lookup sequences over 5 keys, capacities 1..4 (and larger), compared with a reference LRU after every operation plus a hook-based probe that no session reachable under a key was wiped. conc: 3-4 tasks on one cache, kernel-chosen pre-emption at the cache mutex, porcupine linearizability check, race detector. conn: honest connection histories through client/server caches of capacity 1..3 must all succeed.",
+   "Trusted: the reference LRU semantics stated in the evidence; porcupine Unknown = infrastructure error.", "5/C11"),
 }
 not_applicable = {
  "C14": "pure function of its input (marshal/unmarshal): no schedule, clock, transport, peer or history enters; input generation is not a simulation target (DESIGN.md section 7). What the simulator sees of the codec is covered under C03/C04/C09.",
